@@ -682,6 +682,12 @@ def stream_cap(ctx):
         kp = gen_points(rng, [P], focus, rng.randint(2, 6))
         as_radec = rng.random() < 0.5
         cases.append({'stream': 'cap', 'cap': c, 'pts': [radec_of(p) if as_radec else p for _, p in kp], 'kinds': [k for k, _ in kp]})
+    # "including the point at a cap's own centre ... and antipodes": x.p rounds to a value just beyond -1 / 1 for a fraction of
+    # a per cent of the unit vectors only, so these two points get a family of their own (xyz form: the antipode is exact)
+    for _ in range(ctx.n(1500, 40000)):
+        ce = unit(rng) if rng.random() < 0.8 else gen_centre(rng)
+        cm = rng.choice([0.5, 1.0, 1.5, 1e-4, 1.9]) * rng.choice([1.0, -1.0])
+        cases.append({'stream': 'cap', 'cap': ce + [cm], 'pts': [ce, [-a for a in ce]], 'kinds': ['centre', 'antipode']})
     model = core.driver_parallel([{'p': 'C12', 'op': 'capdist', 'cap': capJ(c['cap']), 'pts': [ptJ(p) for p in c['pts']]} for c in cases])
     for c, m in zip(cases, model):
         check_cap(ctx, c, m)
@@ -722,6 +728,8 @@ def check_cap(ctx, c, m=None):
         a = abs(cm)
         rad = math.atan2(math.sqrt(max(0.0, a * (2 - a))), 1 - a)
         wantd = math.degrees(rad - ang) * (-1 if cm < 0 else 1)
+        if math.isnan(dist[i]) and abs(cm) <= 2 and not math.isnan(wantd):
+            ctx.violate('cap:distance-nan', 'cap_distance is NaN for the %s point %r of cap %r (radius - separation = %r)' % (kinds[i], p, cap, wantd), one)
         if not math.isnan(dist[i]) and abs(dist[i] - wantd) > 1e-9 * max(1, abs(wantd)) + 3e-6:
             ctx.violate('cap:distance-value', 'cap_distance = %r, radius - separation = %r' % (dist[i], wantd), one)
         if abs(mg) < MARGIN:
